@@ -1,9 +1,19 @@
+pub mod c08;
+pub mod c09;
+pub mod c10;
+pub mod c11;
 pub mod c16;
+pub mod c17;
 use crate::runner::Property;
 pub fn by_id(id: &str) -> Option<Property> {
     Some(match id {
+        "C08" => c08::property(),
+        "C09" => c09::property(),
+        "C10" => c10::property(),
+        "C11" => c11::property(),
         "C16" => c16::property(),
+        "C17" => c17::property(),
         _ => return None,
     })
 }
-pub const ALL: &[&str] = &["C16"];
+pub const ALL: &[&str] = &["C08", "C09", "C10", "C11", "C16", "C17"];
